@@ -381,3 +381,25 @@ Theorem C03_node_count_canonical_iso_functional : forall s1 s2 R, bisim s1 s2 R 
   forall x y y', R x y -> R x y' -> y = y'.
 Proof. exact bisim_functional. Qed.
 Print Assumptions C03_node_count_canonical_iso_functional.
+
+(* the textbook characterisation (BDD kind): the references reachable from a reference denoting phi are
+   exactly the distinct subfunctions of phi (levels above fixed), a node sitting at level L iff its
+   subfunction depends on level L; one reference per function by canonicity (C01) *)
+From OxiVerif Require Import DD.BuildCanonSub.
+Theorem C03_node_count_canonical_reachable_is_sub : forall s, BddOK s -> forall r phi, Den s r phi ->
+  forall x, reachable s (r :: nil) x ->
+  exists p, bchoice p /\ Den s x (sub phi (rlevel s x) p).
+Proof. exact reachable_is_sub. Qed.
+Print Assumptions C03_node_count_canonical_reachable_is_sub.
+
+Theorem C03_node_count_canonical_sub_is_reachable : forall s, BddOK s -> forall r phi, Den s r phi ->
+  forall L p, L <= nlevels s -> bchoice p ->
+  exists x, reachable s (r :: nil) x /\ Den s x (sub phi L p) /\ L <= rlevel s x.
+Proof. exact sub_is_reachable. Qed.
+Print Assumptions C03_node_count_canonical_sub_is_reachable.
+
+Theorem C03_node_count_canonical_sub_level_iff : forall s, BddOK s -> forall r phi, Den s r phi ->
+  forall L p x, L < nlevels s -> bchoice p -> Den s x (sub phi L p) ->
+  (rlevel s x = L <-> depends_on (sub phi L p) L).
+Proof. exact sub_level_iff. Qed.
+Print Assumptions C03_node_count_canonical_sub_level_iff.
